@@ -25,7 +25,7 @@ func init() {
 			"a bar with zero TimeSig inherits the previous bar's signature at AddBar time (documented behaviour of AddBar)",
 			"per-track assignment in ToSMF1 (events of track number n on the n-th used track) is read as part of 'multi-track export'",
 		},
-		Require: []string{"note_offs_edited_in_exported_files", "songs_beyond_2^20_events", "non_channel_events_in_bars", "songs", "bars_num_ge_8", "sig_changes", "notes_with_duration", "smf1_tracks", "compound_meters", "in_place_edits_between_exports", "shared_pattern_songs"},
+		Require: []string{"note_offs_edited_in_exported_files", "songs_beyond_2^20_events", "songs_beyond_2^32_ticks", "non_channel_events_in_bars", "songs", "bars_num_ge_8", "sig_changes", "notes_with_duration", "smf1_tracks", "compound_meters", "in_place_edits_between_exports", "shared_pattern_songs"},
 		Run:     runC20,
 	})
 }
@@ -489,6 +489,32 @@ func runC20(c *mon.Ctx) {
 		checkSong(c, s)
 		c.Count("songs_beyond_2^20_events", 1)
 		c.DistinctBytes([]byte("beyond-2^20"))
+	})
+
+	// a song of more than 2^32 ticks (4800 bars of 15/2 and 14/2 at the finest resolution divisible by 8) with events on every
+	// track in every bar and a change of signature now and then: all deltas stay small, only the positions are large
+	c.Each("beyond-2^32-ticks", 1, func(_ int64, r *mon.Rand) {
+		s := &c20Song{res: 32760}
+		nb := 4800 // about 232 thirty-second notes per bar x 4095 ticks: 4.5e9 ticks
+		for k := 0; k < nb; k++ {
+			sig := [2]uint8{0, 0}
+			switch {
+			case k == 0 || k%100 == 50:
+				sig = [2]uint8{15, 2} // 240 thirty-second notes
+			case k%100 == 0:
+				sig = [2]uint8{14, 2}
+			}
+			s.sigs = append(s.sigs, sig)
+		}
+		for bar := 0; bar < nb-1; bar++ {
+			for tr := 0; tr < 3; tr++ {
+				s.evs = append(s.evs, c20Event{bar: bar, track: tr, pos: uint8(r.Intn(200)), dur: uint8(1 + r.Intn(20)), msg: []byte{0x90 | byte(tr), byte(bar & 127), byte(1 + r.Intn(127))}})
+			}
+		}
+		c.CurPayload([]byte(fmt.Sprintf("song of %d bars of 15/2 and 14/2 at resolution %d (more than 2^32 ticks)", nb, s.res)))
+		checkSong(c, s)
+		c.Count("songs_beyond_2^32_ticks", 1)
+		c.DistinctBytes([]byte("beyond-2^32-ticks"))
 	})
 
 	c.Each("random-songs", c.N(3000, 3_000_000), func(i int64, r *mon.Rand) {
